@@ -266,7 +266,8 @@ def gen_world(rng, tier, stream):
         if rng.random() < 0.25:
             maybe_wl(force=True)
             cmds += observe(0.0)
-    return dict(urdf=u, extras=extras, cmds=cmds)
+    return dict(urdf=u, extras=extras, cmds=cmds,
+                base2origin=(gen_pose(rng, 1.0) if rng.random() < 0.3 else None))
 
 
 def gen_case(rng, tier, stream="property"):
@@ -532,6 +533,9 @@ def judge_world(wcase, wres, stats):
         rows = sorted((d[0], d[1]) for d in snap["ext"] if d is not None)
         if rows != sorted(ids.items()):
             fails.append(f"cmd {k}: payload rows of the tree {rows[:4]}.. differ from colliders_ {sorted(ids.items())[:4]}..")
+        if snap.get("collider_frames") != snap.get("added") or snap.get("get_colliders") != [e["oid"] for e in ent]:
+            fails.append(f"cmd {k}: get_collider_frames()/get_colliders() differ from what was registered")
+        stats["empty_bvh"] += not ent
         if rec["exc"]:
             continue
         if op == "query":
@@ -541,6 +545,8 @@ def judge_world(wcase, wres, stats):
                 fails.append(f"cmd {k}: aabb_overlapping_colliders returned {got[:5]}, brute force {want[:5]}")
             stats["query"] += 1
             stats["query_nonempty"] += bool(want) and len(want) < len(ids)
+            stats["query_whitelist_removed_something"] += any(
+                overlap(box[f], rec["q_aabb"]) for f in ids if f in cmd.get("whitelist", []))
         elif op == "self":
             want = sorted((f, ids[f], g, ids[g]) for f in ids for g in ids if f != g and overlap(box[f], box[g]))
             if any(a is None or b is None for a, b in rec["r"]):
@@ -580,6 +586,7 @@ def judge_world(wcase, wres, stats):
                 stats["detect"] += 1
                 stats["detect_mixed"] += bool(marked) and len(marked) < n
                 stats["detect_partner_only"] += len(marked - must)
+                stats["detect_continue_taken"] += [f for f, _ in rec["r"]] != fr
             else:
                 if rec["r"] != bool(must) and not c04:
                     fails.append(f"cmd {k}: detect_any returned {rec['r']}, all-pairs oracle {bool(must)}")
@@ -642,7 +649,8 @@ def run_impl_cases(cases, tag):
 
 def new_stats():
     return dict(snapshots=0, query=0, query_nonempty=0, self=0, self_nonempty=0, cross=0, cross_nonempty=0,
-                detect=0, detect_mixed=0, detect_partner_only=0, detect_any=0, detect_any_true=0,
+                detect=0, detect_mixed=0, detect_partner_only=0, detect_continue_taken=0, detect_any=0,
+                detect_any_true=0, empty_bvh=0, query_whitelist_removed_something=0,
                 narrow_raised=0, narrow_without_aabb_overlap=0)
 
 
@@ -721,7 +729,7 @@ def run(tier, seed, replay=None):
                     e, want = wl_to_coq(u, rec)
                     wl_exprs.append(e)
                     wl_meta.append((i, nm, want))
-    branch = dict(keyerror=0, continue_in_detect=0, whitelist_pop=0, self_pair_skipped=0, empty_tree=0)
+    branch = dict(keyerror=0)
     try:
         outs = cm.coq_eval_lines(PID, HEADER, exprs, per_file=max(4, len(exprs) // (2 * cm.NCPU) + 1), timeout=1500)
         for (i, parts, cross, flags), o in zip(meta, outs):
@@ -772,7 +780,7 @@ def run(tier, seed, replay=None):
     R.cov["generated_whitelists_asymmetric"] = nasym
     R.cov["cases_with_unstable_narrow_phase"] = nunstable
     R.cov["cases_truncated_at_exception"] = ntrunc
-    R.cov["model_branches"] = branch
+    R.cov["exceptions_predicted_by_model_and_confirmed"] = branch
 
     distinct = set()
     hist = dict(stream={}, ops={}, kinds={}, exceptions={})
